@@ -27,6 +27,8 @@ CLAIMED["C19"] = ("outcome monitor with torch as the judge: for every class x pu
                   "runtime monitoring: raise/return outcome monitor against torch's own verdict on the densified operand")
 CLAIMED["C15"] = ("dispatch monitor: the two registration tables are read from the module at run time and enumerated completely x every operator class x operand kinds x both operand orders (torch.f(op, ...), torch.f(tensor, op), tensor <binop> op); each result is compared with op.method(...) and with torch.f on dense operands (canonical forms for factorizations); a sample of ~45 unregistered torch functions must raise NotImplementedError",
                   "runtime monitoring: exhaustive enumeration of the dispatch tables x class grid with a dense-reference oracle per call")
+CLAIMED["C14"] = ("fidelity monitor: clone / detach / to / type / double / float / cpu / evaluate_kernel / representation_tree()(*representation()) on every class under source x target x default dtype in {f32, f64}^3; class, public flags, non-tensor arguments and integer / boolean tensors must be preserved, the dense value (to_dense and the denotation of the result's constructor arguments) must equal the original cast to the target dtype, clones share no storage, requires_grad_ reaches exactly the floating tensors, and every tensor returned by to_dense / diagonal / matmul / indexing / sums keeps the operator's dtype when the default dtype differs",
+                  "runtime monitoring: reference-model monitor on converted / rebuilt operators plus dtype and storage observers")
 PENDING = {}
 def main():
     hooks_commits = []
